@@ -3,7 +3,7 @@ import AbtemVerif.Model.Noise
 open AbtemVerif AbtemVerif.Proto AbtemVerif.Noise
 
 /- request:
-     `noise <eager|lazy> <seeds: none | s:<int> | d:<ints>> <dose: s:<rat> | d:<rats>> <dose chunks> <sample chunks> <item chunks> <items: rats;rats;…>`
+     `noise <eager|lazy> <seeds: none | s:<int> | d:<ints>> <dose: s:<rat> | d:<rats>> <dose chunks> <sample chunks> <item chunks> <base dims> <items: rats;rats;…>`
    reply: `ok <nd> <ns> <n> <p> <flat counts>` | `err <kind>` | `bad-op`
    The kernels are the tagging kernels `tagK`; eager uses entropy 0, lazy block `t` uses entropy `t`. -/
 def seeds? (s : String) : Option Seeds :=
@@ -25,17 +25,17 @@ def showArr (a : Arr4 Int) : String :=
   s!"ok {nd} {ns} {n} {p} {showList showInt (flat4 a)}"
 
 def handle : List String → String
-  | ["noise", mode, sd, ds, cd, cs, ci, items] =>
-    match seeds? sd, dose? ds, parseList? parseNat? cd, parseList? parseNat? cs, parseList? parseNat? ci,
+  | ["noise", mode, sd, ds, cd, cs, ci, bd, items] =>
+    match seeds? sd, dose? ds, parseList? parseNat? cd, parseList? parseNat? cs, parseList? parseNat? ci, parseNat? bd,
           parseListList? parseRat? items with
-    | some sd, some ds, some cd, some cs, some ci, some items =>
+    | some sd, some ds, some cd, some cs, some ci, some bd, some items =>
       if mode = "eager" then showArr (eager tagK sd ds 0 items)
       else if mode = "lazy" then
-        match lazyEval tagK sd ds ⟨cd, cs, ci⟩ id items with
+        match lazyEval tagK sd ds ⟨cd, cs, ci, bd⟩ id items with
         | .ok a => showArr a
         | .error e => s!"err {e}"
       else "bad-op"
-    | _, _, _, _, _, _ => "bad-op"
+    | _, _, _, _, _, _, _ => "bad-op"
   | _ => "bad-op"
 
 def main : IO Unit := serve handle
